@@ -17,6 +17,7 @@ import (
 	"github.com/vechain/thor/v2/scheduler"
 	"github.com/vechain/thor/v2/thor"
 
+	"verif/harness/internal/chaingen"
 	"verif/harness/internal/hx"
 )
 
@@ -686,6 +687,15 @@ func main() {
 		if err != nil {
 			hx.Fatal("%v", err)
 		}
+		var nd struct {
+			Class  string    `json:"class"`
+			Replay *nodeCase `json:"replay"`
+		}
+		if json.Unmarshal(b, &nd) == nil && strings.HasPrefix(nd.Class, "property:node-level") && nd.Replay != nil && nd.Replay.Spec != nil {
+			chaingen.Configure()
+			nodeChain(ctx, nd.Replay.Spec)
+			ctx.Finish("replay (node level)", nil)
+		}
 		var doc struct {
 			Replay *Case `json:"replay"`
 		}
@@ -696,7 +706,8 @@ func main() {
 		ctx.Finish("replay", nil)
 	}
 	r := hx.NewRand(ctx.Seed)
-	n := ctx.Scale(3000, 200000)
+	nodeLevel(ctx, r.Fork(99), ctx.Scale(60, 1500))
+	n := ctx.Scale(8000, 200000)
 	batch := 1000
 	for done := 0; done < n; done += batch {
 		var cases []*Case
